@@ -20,6 +20,14 @@ def run(ctx: Ctx, chk) -> None:
     chk.run_rule(wake1, ctx)
     chk.run_rule(flush_node, ctx)
     chk.run_rule(flush_once, ctx)
+    chk.run_rule(keep1, ctx)
+
+
+def keep1(ctx: Ctx, chk) -> None:
+    """A parked command must still be there when its node wakes: removals only in the flush, after the write."""
+    from . import c08
+
+    c08.write_then_forget(ctx, chk, loss_only=True)
 
 
 def park1(ctx: Ctx, chk) -> None:
